@@ -389,6 +389,11 @@ def check_svg(data, matrix, kw, out, what, want, side, page, colour_cells=None, 
                 if t is not None and t[0] == 'stroke' and not (t[2] is not None and float(t[2]) == 0.0):
                     wrong.append((r, c, t, None))
                 continue
+            if exp[3] / 255.0 <= 0.005 and (t is None or t[0] == 'fill'):
+                # opacity is written with two decimals: an alpha below 0.5 % may legitimately come out as 0, i.e. as
+                # no stroke at all (the background shows). A stroke that does cover the cell is this cell's own
+                # paint and is compared as usual.
+                continue
             if t is None:
                 wrong.append((r, c, None, exp))
                 continue
@@ -398,8 +403,10 @@ def check_svg(data, matrix, kw, out, what, want, side, page, colour_cells=None, 
             elif not ok:
                 wrong.append((r, c, t, exp))
     if wrong:
+        pairs = sorted({(t, tuple(e) if e is not None else None) for _, _, t, e in wrong}, key=repr)
         out.append(('cell-colour', dict(what, n_cells=len(wrong), first=[(r, c, t, e) for r, c, t, e in wrong[:4]],
-                                        cells=[(r, c) for r, c, _, _ in wrong[:12]])))
+                                        cells=[(r, c) for r, c, _, _ in wrong[:12]],
+                                        distinct_found_expected=pairs[:8], n_distinct_found_expected=len(pairs))))
     if unknown_names:
         out.append(('colour-name-unknown-to-oracle', dict(what, names=sorted(unknown_names))))
     return out
